@@ -55,3 +55,40 @@ theorem C14_descendants_nodup (h : Heap) (hwf : P17.WF h) (i : Nat) (hi : i ∈ 
 
 -- non-vacuity: the witness heap satisfies the hypotheses of the main theorem
 example : P17.WF P17.h0 ∧ P17.Sound P17.h0 := ⟨P17.h0_wf, P17.h0_sound⟩
+
+/-! ## pixel counts and peaks (`_npix_total`, `_peak`, `_peak_subtree`) — ADModel.CachePix -/
+
+/-- **C14 (pixel counts and peaks, every history).** Starting from any well-formed object graph whose
+pixel caches are sound (in particular: empty, as after `compute` or a load), every answer of every
+history of `get_npix(subtree=True)`, `get_peak(subtree=…)` queries and prunes equals what a freshly
+constructed dendrogram with the same links and own pixels answers at that moment. -/
+theorem C14_pix_history_sound (h : PHeap) (ops : List POp) (hwf : P33.WF h) (hs : P33.Sound h)
+    (hleg : P33.LegalOps h ops) : ∀ pr ∈ P33.run h ops, pr.1 = pr.2 :=
+  P33.history_sound h ops hwf hs hleg
+
+/-- one query: the answer, and the links are untouched -/
+theorem C14_get_peak (h : PHeap) (hwf : P33.WF h) (hs : P33.Sound h) (i : Nat) (hi : i ∈ h.alive) (sub : Bool) :
+    let r := h.getPeak h.size i sub
+    r.2 = (if sub then h.specPeakSub h.size i else h.specPeak i) ∧ P33.WF r.1 ∧ P33.Sound r.1 ∧
+      ((∀ j, (r.1.get j).map (fun o => (o.parent, o.kids, o.own)) =
+          (h.get j).map (fun o => (o.parent, o.kids, o.own))) ∧ r.1.alive = h.alive) :=
+  P33.getPeak_sound h hwf hs i hi sub
+
+theorem C14_get_npix (h : PHeap) (hwf : P33.WF h) (hs : P33.Sound h) (i : Nat) (hi : i ∈ h.alive) :
+    let r := h.getNpix h.size i
+    r.2 = some (h.specCount h.size i) ∧ P33.WF r.1 ∧ P33.Sound r.1 ∧
+      ((∀ j, (r.1.get j).map (fun o => (o.parent, o.kids, o.own)) =
+          (h.get j).map (fun o => (o.parent, o.kids, o.own))) ∧ r.1.alive = h.alive) :=
+  P33.getNpix_sound h hwf hs i hi
+
+/-- after `prune` nothing of the pixel caches survives on any structure that is still alive -/
+theorem C14_pix_prune_resets_all (h : PHeap) (ms : List Nat) :
+    ∀ o ∈ (h.prune ms).objs, o.id ∈ (h.prune ms).alive → o.npixTot = none ∧ o.peak = none ∧ o.peakSub = none :=
+  P33.prune_resets_all h ms
+
+/-- the count cache would stay right even without that reset: a merge moves pixels inside a subtree -/
+theorem C14_merge_keeps_count (h : PHeap) (hwf : P33.WF h) (m : Nat) (hm : m ∈ h.alive)
+    (hp : (h.get m).bind (·.parent) ≠ none) :
+    ∀ j ∈ (h.mergeWithParent m).alive,
+      (h.mergeWithParent m).specCount (h.mergeWithParent m).size j = h.specCount h.size j :=
+  P33.merge_keeps_count h hwf m hm hp
